@@ -33,8 +33,9 @@ def run(tier, seed):
         rng.shuffle(small)
         asts = small[:160]
     else:
-        asts += [(a, False) for a in rng.sample(regexgen.enumerate_asts(4), 3000)]
-    for i in range(60 if quick else 1500):
+        four = regexgen.enumerate_asts(4)
+        asts += [(a, False) for a in rng.sample(four, min(3000, len(four)))]
+    for i in range(160 if quick else 1500):
         binary = rng.random() < 0.3
         asts.append((regexgen.random_ast(rng, 0, binary), binary))
     # corner regexes that are always included, with EOF support: wildcards and inverted sets against end-of-input,
